@@ -1720,8 +1720,17 @@ impl<'t, 'a> Gen<'t, 'a> {
         } else {
             let m = self.method_name();
             let mut s = pick(0);
+            // (known finding: with the plus operator disabled a sum must not be the argument of an instrumented call)
+            let sums = self.o.plus_enabled || !self.o.avoid.plain_sum_operand;
+            if !sums {
+                self.redirect("plain_sum_operand");
+            }
             for i in 0..n {
-                s.push_str(&format!(".{m}({} + {})", pick(i + 1), pick(i + 2)));
+                if sums {
+                    s.push_str(&format!(".{m}({} + {})", pick(i + 1), pick(i + 2)));
+                } else {
+                    s.push_str(&format!(".{m}({}, {})", pick(i + 1), pick(i + 2)));
+                }
             }
             format!("{} = {};", t.print(), s)
         }
